@@ -3,6 +3,57 @@ import Driver.Util
 namespace Driver
 open Inj Inj.X86
 
+/-- One step of a slightly wider instruction set than the model's, used only to *judge* stub
+    bytes the implementation emitted (never in a proof): the model's five instructions, plus
+    `mov r8, imm8` (B0+r, r < 4), `mov r32, imm32` (B8+r, zero-extending), `xor eax, eax`
+    (31 C0 / 33 C0), `vzeroupper` and `nop`.  Anything else is undecodable. -/
+def stepWide (m : Nat → Nat) (c : Cpu) : Option Cpu :=
+  match step m c with
+  | some c' => some c'
+  | none =>
+    let b0 := m c.rip
+    let b1 := m (c.rip + 1)
+    if 0xB0 ≤ b0 && b0 < 0xB4 then
+      let r := b0 - 0xB0
+      some { c with rip := c.rip + 2, gpr := setReg c.gpr r (c.gpr r / 256 * 256 + b1 % 256) }
+    else if 0xB8 ≤ b0 && b0 < 0xC0 then
+      let r := b0 - 0xB8
+      let imm := m (c.rip + 1) + 256 * m (c.rip + 2) + 65536 * m (c.rip + 3) + 16777216 * m (c.rip + 4)
+      some { c with rip := c.rip + 5, gpr := setReg c.gpr r imm }
+    else if (b0 == 0x31 || b0 == 0x33) && b1 == 0xC0 then
+      some { c with rip := c.rip + 2, gpr := setReg c.gpr 0 0, flags := 0x246 }
+    else if b0 == 0xC5 && b1 == 0xF8 && m (c.rip + 2) == 0x77 then
+      -- vzeroupper: clears the upper halves of the vector registers (not tracked here)
+      some { c with rip := c.rip + 3 }
+    else if b0 == 0x90 then some { c with rip := c.rip + 1 }
+    else none
+
+def runWide (m : Nat → Nat) : Nat → Cpu → Option Cpu
+  | 0, c => some c
+  | n+1, c => match stepWide m c with
+    | none => none
+    | some c' => if c'.rip == 0x123456789a then some c' else runWide m n c'
+
+/-- Where control goes when the bytes `bs` placed at `a` are executed from their first byte:
+    up to four instructions of the wide set, until the instruction pointer leaves the bytes.
+    Used to judge emitted branches, whatever (decodable) form they take. -/
+def followWide (a : Nat) (bs : List Nat) (rax : Nat) : Option (Nat × Nat) := Id.run do
+  let m := memOfBytes a bs
+  let mut c : Cpu := { rip := a, gpr := setReg (fun _ => 0) 0 rax, xmm := fun _ => 0, flags := 0 }
+  for _ in [0:4] do
+    let isJump := match decode m c.rip with
+      | some (Instr.jmpRel32 _) => true
+      | some Instr.jmpRax => true
+      | _ => false
+    match stepWide m c with
+    | none => return none
+    | some c' =>
+      c := c'
+      -- a jump ends the sequence wherever it lands (possibly back inside these very bytes)
+      if isJump then return some (c.rip, c.gpr 0)
+      if !(a ≤ c.rip && c.rip < a + bs.length) then return none
+  return none
+
 /-- `x86br <d|r> <ori> <target> | ok <bytes>` / `| panic` -/
 def handleX86Br (args obs : List String) : Verdict :=
   match args, obs with
@@ -19,7 +70,7 @@ def handleX86Br (args obs : List String) : Verdict :=
         match parseBytes bh with
         | none => bad "bytes"
         | some bs =>
-          let dest := follow ori bs 0x5a5a5a5a
+          let dest := followWide ori bs 0x5a5a5a5a
           let pOk := (match dest with | some (d, _) => d == target | none => false)
           let br := if bs.length = 5 then "short" else if bs.length = 12 then "long" else "other"
           let ag := (match model with | Res.ok mb => mb == bs | _ => false)
@@ -29,33 +80,6 @@ def handleX86Br (args obs : List String) : Verdict :=
       | _ => bad "obs"
     | _, _ => bad "args"
   | _, _ => bad "arity"
-
-/-- One step of a slightly wider instruction set than the model's, used only to *judge* stub
-    bytes the implementation emitted (never in a proof): the model's five instructions, plus
-    `mov r8, imm8` (B0+r, r < 4), `mov r32, imm32` (B8+r, zero-extending), `xor eax, eax`
-    (31 C0 / 33 C0) and `push imm8; pop rax` is not included.  Anything else is undecodable. -/
-def stepWide (m : Nat → Nat) (c : Cpu) : Option Cpu :=
-  match step m c with
-  | some c' => some c'
-  | none =>
-    let b0 := m c.rip
-    let b1 := m (c.rip + 1)
-    if 0xB0 ≤ b0 && b0 < 0xB4 then
-      let r := b0 - 0xB0
-      some { c with rip := c.rip + 2, gpr := setReg c.gpr r (c.gpr r / 256 * 256 + b1 % 256) }
-    else if 0xB8 ≤ b0 && b0 < 0xC0 then
-      let r := b0 - 0xB8
-      let imm := m (c.rip + 1) + 256 * m (c.rip + 2) + 65536 * m (c.rip + 3) + 16777216 * m (c.rip + 4)
-      some { c with rip := c.rip + 5, gpr := setReg c.gpr r imm }
-    else if (b0 == 0x31 || b0 == 0x33) && b1 == 0xC0 then
-      some { c with rip := c.rip + 2, gpr := setReg c.gpr 0 0, flags := 0x246 }
-    else none
-
-def runWide (m : Nat → Nat) : Nat → Cpu → Option Cpu
-  | 0, c => some c
-  | n+1, c => match stepWide m c with
-    | none => none
-    | some c' => if c'.rip == 0x123456789a then some c' else runWide m n c'
 
 /-- `x86bool <0|1> | <bytes>` : the boolean stub as emitted.  Judged as C10 states it: control
     returns to the caller, the returned `bool` (`al`) is the requested value, the stack pointer
